@@ -397,7 +397,7 @@ class Source:
                 return exts
         return []
 
-    def cut(self, path_spec: str, dedent_to: int | None = None) -> str:
+    def cut(self, path_spec: str) -> str:
         pieces = []
         for ext in self.resolve(path_spec):
             txt = self.lines(ext)
@@ -546,6 +546,22 @@ class Slice:
         if self.cache_hit:
             return os.path.join(final, 'classes')
         os.makedirs(CACHE, exist_ok=True)
+        # one compiler at a time per slice: the others block on the lock and then hit the cache
+        lock = open(os.path.join(CACHE, key + '.lock'), 'w')
+        try:
+            try:
+                import fcntl
+                fcntl.flock(lock, fcntl.LOCK_EX)
+            except (ImportError, OSError):
+                pass                      # no locking available: compile-to-temp + atomic rename is still safe
+            if os.path.isfile(os.path.join(final, 'OK')):
+                self.cache_hit = True
+                return os.path.join(final, 'classes')
+            return self._compile_into(tc, text, key, final)
+        finally:
+            lock.close()
+
+    def _compile_into(self, tc, text, key, final) -> str:
         tmp = tempfile.mkdtemp(prefix=f'tmp-{self.name}-', dir=CACHE)
         try:
             srcf = os.path.join(tmp, 'Slice.scala')
@@ -574,7 +590,7 @@ class Slice:
             with open(os.path.join(tmp, 'OK'), 'w') as f:
                 f.write(f'compiled in {self.compile_s:.1f}s\n')
             try:
-                os.rename(tmp, final)          # atomic publish; loses the race harmlessly
+                os.rename(tmp, final)          # atomic publish; losing a race is harmless
                 tmp = None
             except OSError:
                 if not os.path.isfile(os.path.join(final, 'OK')):
